@@ -61,6 +61,17 @@ Record lev_src := mkLV {
 }.
 Definition canonical_lv : lev_src := mkLV [FMaxS; FMaxShape; FEps] CLt true.
 
+(* cp_tensor.py : cp_permute_factors.  Enforced as patterns by the executor: copies are permuted (cp_copy), the congruence is
+   taken as congruence_coefficient(reference.factors, tensor.factors) with the default absolute_value, every factor of the copy is
+   indexed [:, col], a single tensor comes back unwrapped.  Switches: *)
+Record cpp_src := mkCPP {
+  pp_norm_ref : bool;      (* ref_cp_tensor = cp_normalize(ref_cp_tensor) *)
+  pp_norm_list : bool;     (* list branch: tensors_to_permute[i] = cp_normalize(tensors_to_permute[i]) *)
+  pp_factors : bool;       (* for f in range(n_factors): copy.factors[f] = copy.factors[f][:, col] *)
+  pp_weights : bool        (* copy.weights = copy.weights[col] *)
+}.
+Definition canonical_pp : cpp_src := mkCPP true true true true.
+
 Section S.
 Context {F : Type} (Op : fops F).
 Local Notation zero := (f0 Op).
@@ -144,6 +155,27 @@ Definition correlation_index_src (s : ci_src) (meth : option cmethod) (tol : F) 
     | Some RdMin => Ok (list_min Op idxs)
     | Some RdMean => Ok (list_mean Op idxs)
     | None => Ok one
+    end
+  end.
+
+(* ---------- cp_tensor.py : cp_permute_factors ----------
+   the two cp_normalize switches have no effect on the meaning: positive column rescaling leaves the congruence matrix unchanged
+   (Proofs/MetricsProofs10.v: cong_all_rescaled), which is why the model does not contain them *)
+Definition cp_permute_factors_src (s : cpp_src) (ref fs : list (mat F)) (w : list F) (nas nbs : list (list F)) (assign : mat F -> list nat)
+  : res (list F * list (mat F) * list nat) :=
+  match congruence Op true ref fs nas nbs assign with
+  | Ok (_, p) => Ok ((if pp_weights s then map (fun k => nth k w zero) p else w,
+                      if pp_factors s then map (permute_cols Op p) fs else fs), p)
+  | Err => Err
+  end.
+Fixpoint cp_permute_factors_list_src (s : cpp_src) (ref : list (mat F)) (nas : list (list F)) (ts : list (list F * list (mat F) * list (list F)))
+  (assign : mat F -> list nat) : res (list (list F * list (mat F) * list nat)) :=
+  match ts with
+  | [] => Ok []
+  | (w, fs, nbs) :: rest =>
+    match cp_permute_factors_src s ref fs w nas nbs assign, cp_permute_factors_list_src s ref nas rest assign with
+    | Ok x, Ok xs => Ok (x :: xs)
+    | _, _ => Err
     end
   end.
 
